@@ -18,6 +18,12 @@ ASSUMPTIONS_COMMON = [
 ]
 
 
+def fname(f):
+    f = getattr(f, "fget", f)
+    f = getattr(f, "__func__", f)
+    return f"{getattr(f, '__module__', '?')}.{getattr(f, '__qualname__', repr(f))}"
+
+
 def safe(s):
     return re.sub(r"[^A-Za-z0-9_.=-]+", "_", s)[:150]
 
@@ -197,7 +203,7 @@ def run_property(args):
             model_inputs = att[0]["inputs"]
         doc = {
             "property": prop, "obligation": name, "harness": hname, "params": params,
-            "functions_under_contract": [f"{f.__module__}.{f.__qualname__}" for f in
+            "functions_under_contract": [fname(f) for f in
                                          (registry.HARNESSES[hname].functions if hname in registry.HARNESSES else [])],
             "confirmed_on_real_code": confirmed, "model_inputs": model_inputs,
             "verifier_output": {"refuted_on_paths": o.get("refuted"), "models": o.get("models"), "static": o.get("static"),
@@ -253,7 +259,7 @@ def run_property(args):
                 "backends": backends, "solver_time_s": round(solver_s, 2), "paths": paths, "queries": queries,
                 "harness_families": fam_info,
                 "functions_under_contract": sorted(
-                    {f"{f.__module__}.{f.__qualname__}" for h in hs for f in h.functions}),
+                    {fname(f) for h in hs for f in h.functions}),
                 "functions_interpreted_from_repo_source": functions,
                 "samples": samples,
                 "cover_points": {k: sorted(v) for k, v in covers_by_h.items()},
